@@ -1,17 +1,22 @@
 /-
   C08 — Only live tokens are honoured; revocation and logout take effect everywhere.
-  Reference monitor over observed histories.
+  Reference monitor over observed histories.  It knows the tokens the provider handed out (access AND refresh
+  tokens, with the issuer they were issued under) and judges every answer of userinfo, introspection,
+  revocation, end_session, token exchange and the refresh grant.  It never looks at how the answer was computed.
 -/
 import OidcModel.Spec.C04
 
 namespace C08
 
-/-- an access token the provider handed out, as far as the observer knows -/
+/-- a token the provider handed out, as far as the observer knows -/
 structure Tok where
   label : String
   client : String
   subject : String
   audience : List String := []
+  issuer : String := ""          -- the issuer the token response came from
+  refresh : Bool := false        -- a refresh token (else an access token)
+  grant : String := ""           -- tokens of one token response share it
   live : Bool := true
   deriving Repr, Inhabited
 
@@ -23,12 +28,15 @@ structure MonState where
 inductive Ev
   | issued (t : Tok)
   | expired (label : String)
-  /-- `tok` = label of the genuine token the presented string stands for ("" = none: forged, garbage, foreign) -/
-  | userinfo (tok : String) (status : Nat) (subject : Option String)
-  | introspect (p : C04.Presented) (tok : String) (status : Nat) (active : Bool) (members : List String)
-  | revoke (p : C04.Presented) (tok : String) (status : Nat) (performed : Bool)
+  /-- `iss` = the issuer the request was addressed to; `tok` = label of the genuine token the presented string stands for
+      ("" = none: forged, tampered, garbage, foreign key) -/
+  | userinfo (iss tok : String) (status : Nat) (subject : Option String)
+  | introspect (iss : String) (p : C04.Presented) (tok : String) (status : Nat) (active : Bool) (members : List String)
+  | revoke (iss : String) (p : C04.Presented) (tok : String) (status : Nat) (performed : Bool)
   | endSession (subject client : String) (status : Nat) (terminated : Bool)
-  | exchange (tok : String) (success : Bool)
+  | exchange (iss tok : String) (success : Bool)
+  /-- the refresh grant by the owning client; `rotated` = the response replaced the refresh token by a new one -/
+  | refresh (iss tok : String) (success rotated : Bool)
   deriving Repr
 
 def find (m : MonState) (label : String) : Option Tok := m.toks.find? (·.label == label)
@@ -37,56 +45,74 @@ def find (m : MonState) (label : String) : Option Tok := m.toks.find? (·.label 
 def callerOf (m : MonState) (now : Int) (p : C04.Presented) (allowPublic : Bool) : Option OPClient :=
   m.base.clients.find? fun c => C04.callerIs m.base now c p && (allowPublic || c.auth != "none")
 
+/-- a token may be honoured at `iss` only if the provider issued it, there, and it is neither expired, revoked nor logged out -/
+def honourable (m : MonState) (ep unknown dead iss tok : String) (wantAccess : Bool) : Option String :=
+  match find m tok with
+  | none => some (ep ++ unknown)
+  | some t =>
+    if wantAccess && t.refresh then some (ep ++ unknown)
+    else if t.issuer != iss then some (ep ++ ":token-of-other-issuer")
+    else if !t.live then some (ep ++ dead)
+    else none
+
 def judge (m : MonState) (now : Int) (e : Ev) : Option String :=
   match e with
   | .issued _ | .expired _ => none
-  | .userinfo tok status subject =>
+  | .userinfo iss tok status subject =>
     match subject with
     | some sub =>
-      match find m tok with
-      | none => some "userinfo:claims-for-unknown-token"
-      | some t => if !t.live then some "userinfo:dead-token-honoured"
-                  else if sub != t.subject then some "userinfo:wrong-subject" else none
+      match honourable m "userinfo" ":claims-for-unknown-token" ":dead-token-honoured" iss tok true with
+      | some v => some v
+      | none => if (find m tok).any (·.subject != sub) then some "userinfo:wrong-subject" else none
     | none => if status ≥ 200 ∧ status < 300 then some "userinfo:2xx-without-claims" else none
-  | .introspect p tok _ active members =>
+  | .introspect iss p tok _ active members =>
     if active then
-      match find m tok with
-      | none => some "introspect:active-for-unknown-token"
-      | some t =>
-        if !t.live then some "introspect:dead-token-active"
-        else match callerOf m now p false with
-          | none => some "introspect:unauthenticated-caller"
-          | some c => if !t.audience.contains c.id then some "introspect:caller-not-in-audience" else none
+      match honourable m "introspect" ":active-for-unknown-token" ":dead-token-active" iss tok true with
+      | some v => some v
+      | none =>
+        match callerOf m now p false with
+        | none => some "introspect:unauthenticated-caller"
+        | some c => if (find m tok).any (!·.audience.contains c.id) then some "introspect:caller-not-in-audience" else none
     else if members != [] && members != ["active"] then some "introspect:inactive-answer-discloses-fields" else none
-  | .revoke p tok status performed =>
+  | .revoke iss p tok status performed =>
     match find m tok with
     | none => if (callerOf m now p true).isSome && status != 200 then some "revoke:unknown-token-not-200" else none
     | some t =>
-      match callerOf m now p true with
+      if t.issuer != iss then none          -- another issuer's token: unknown there, no demand on the answer
+      else match callerOf m now p true with
       | none => if performed then some "revoke:by-unauthenticated-caller" else none
       | some c =>
-        if c.id == t.client then (if status != 200 then some "revoke:owner-refused" else none)
+        if c.id == t.client then (if status != 200 then some "revoke:owner-refused" else none)   -- whatever the hint
         else if status == 200 && t.live then some "revoke:foreign-client-not-refused" else none
   | .endSession _ _ status terminated => if status < 400 && !terminated then some "end_session:session-not-terminated" else none
-  | .exchange tok success =>
+  | .exchange iss tok success => if success then honourable m "exchange" ":unknown-subject-token-accepted" ":dead-subject-token-accepted" iss tok false else none
+  | .refresh iss tok success _ =>
     if success then
-      match find m tok with
-      | none => some "exchange:unknown-subject-token-accepted"
-      | some t => if !t.live then some "exchange:dead-subject-token-accepted" else none
+      match honourable m "refresh" ":unknown-token-honoured" ":dead-token-honoured" iss tok false with
+      | some v => some v
+      | none => if (find m tok).any (!·.refresh) then some "refresh:unknown-token-honoured" else none
     else none
+
+def kill (m : MonState) (p : Tok → Bool) : MonState := { m with toks := m.toks.map fun x => if p x then { x with live := false } else x }
 
 def update (m : MonState) (now : Int) (e : Ev) : MonState :=
   match e with
   | .issued t => { m with toks := m.toks ++ [t] }
-  | .expired l => { m with toks := m.toks.map fun t => if t.label == l then { t with live := false } else t }
-  | .revoke p tok status _ =>
+  | .expired l => kill m (·.label == l)
+  | .revoke iss p tok status _ =>
     match find m tok, callerOf m now p true with
-    | some t, some c => if c.id == t.client && status == 200 then
-        { m with toks := m.toks.map fun x => if x.label == tok then { x with live := false } else x } else m
+    | some t, some c =>
+      if c.id == t.client && status == 200 && t.issuer == iss then
+        -- revoked by its owner: the token is dead from now on; a refresh token takes the access token of its grant with it
+        kill m fun x => x.label == tok || (t.refresh && x.grant == t.grant)
+      else m
     | _, _ => m
   | .endSession sub cl status terminated =>
-    if status < 400 && terminated then
-      { m with toks := m.toks.map fun x => if x.subject == sub && x.client == cl then { x with live := false } else x } else m
+    if status < 400 && terminated then kill m fun x => x.subject == sub && x.client == cl else m
+  | .refresh _ tok success rotated =>
+    match find m tok with
+    | some t => if success && rotated then kill m (·.grant == t.grant) else m     -- replaced by the tokens of the response
+    | none => m
   | _ => m
 
 end C08
